@@ -151,8 +151,14 @@ impl GroupScen {
                 format!("{}:{}", a, opt_str(&v))
             })
             .collect();
+        let pagediff = paging_audit("list_members", &|c, l| {
+            self.q::<MemberListResponse>(QueryMsg::ListMembers { start_after: c, limit: l })
+                .map(|r| r.members.iter().map(|m| format!("{}:{}", m.addr, m.weight)).collect())
+        })
+        .unwrap_or_default();
         format!(
-            "obs admin={} hooks={} members={} total={} mh={} th={} rawtotal={} rawmem={}",
+            "obs pagediff={} admin={} hooks={} members={} total={} mh={} th={} rawtotal={} rawmem={}",
+            pagediff,
             opt_str(&self.admin()),
             self.hooks().join(","),
             members.join(","),
@@ -224,7 +230,7 @@ impl GroupScen {
     fn gen_weight(&self, rng: &mut Rng, addr: &str) -> u64 {
         let cur = self.weight(addr, None);
         let total = self.total(None).unwrap_or(0);
-        let room = u64::MAX - total + cur.unwrap_or(0); // largest weight that still fits
+        let room = (u64::MAX - total).saturating_add(cur.unwrap_or(0)); // largest weight that still fits
         match rng.below(24) {
             0 | 1 => 0,
             2 | 3 | 4 => cur.unwrap_or(1), // re-weight to the same value
